@@ -26,7 +26,7 @@ except OSError:
 checks, na = [], []
 for p in props:
     pid = p["id"]
-    if pid in frags:
+    if pid in frags and pid not in unclaimed:
         d = frags[pid]
         checks.append({
             "property_id": pid,
